@@ -116,8 +116,9 @@ def gen_ops(rng, prop, knobs, profile):
                 m = wchoice(rng, [(40, 1), (30, 2), (20, 3), (10, rng.randint(1, min(5, K)))])
             m = min(m, K)
             op["keys"] = rng.sample(range(K), m)
-            if not c19 and m >= 2 and rng.random() < 0.03:
-                op["keys"][-1] = op["keys"][0]
+            if not c19 and m >= 2 and rng.random() < (0.15 if m >= 6 else 0.04):
+                # the same uri twice in one request (in a big request: in different pool chunks)
+                op["keys"][-1] = op["keys"][rng.randrange(0, min(5, m - 1))]
             if m == 1 and rng.random() < 0.3:
                 op["as_str"] = True
         elif kind in ("REMOVE", "TOUCH", "USER_READ"):
